@@ -172,11 +172,16 @@ inline FactorOutcome factor_once(const FactorProblem<T> &P, const StorageCfg &cf
     return out;
 }
 
+// Fork isolation is only needed while a crash or hang is an *expected* outcome class (a known finding about caller workspaces
+// being open); otherwise the run is inline - a crash then ends the worker and is reported by the driver, a hang by its watchdog.
+inline bool &vf_nofork_flag() { static bool v = getenv("VF_NOFORK") != nullptr; return v; }
+inline bool vf_nofork() { return vf_nofork_flag(); }
+
 // Same, in a forked child with a watchdog (a caller workspace can make the library hang or crash: finding F04).
 template <class T>
 inline IsoResult factor_isolated(const FactorProblem<T> &P, const StorageCfg &cfg, unsigned char heapfill, bool check_numeric, FactorOutcome &out, unsigned timeout_s = 10, long fault_k = 0)
 {
-    if (getenv("VF_NOFORK")) { out = factor_once<T>(P, cfg, heapfill, check_numeric, fault_k); return IsoResult(); }   // debugging aid: see the sanitizer report
+    if (vf_nofork()) { out = factor_once<T>(P, cfg, heapfill, check_numeric, fault_k); return IsoResult(); }
     Ctx carrier;
     IsoResult r = run_isolated(carrier, [&](Ctx &cc) { FactorOutcome o = factor_once<T>(P, cfg, heapfill, check_numeric, fault_k); cc.label("O=" + o.serialize()); }, timeout_s);
     if (r.status == IsoResult::OK) { bool got = false; for (auto &l : carrier.labels) if (l.rfind("O=", 0) == 0) got = out.parse(l.substr(2)); if (!got) { r.status = IsoResult::CRASH; r.detail = -1; } }
